@@ -171,6 +171,17 @@ func (a *Analyzer) CheckRule(clause ast.Clause) error {
 						return fmt.Errorf("variable %v in %v will not have a value yet; move the subgoal to the right", v, p)
 					}
 				}
+			case ast.Ineq:
+				// An inequality only compares: like a built-in comparison it needs the
+				// value of each of its variables when it is evaluated. With a variable
+				// that has none yet the two sides unify and it is never satisfied.
+				ineqVars := make(map[ast.Variable]bool)
+				ast.AddVars(p, ineqVars)
+				for v := range ineqVars {
+					if !hasValue(v) {
+						return fmt.Errorf("variable %v in %v will not have a value yet; move the subgoal to the right", v, p)
+					}
+				}
 			case ast.TemporalLiteral:
 				// Variables in the underlying literal are bound if it's an Atom
 				if atom, ok := p.Literal.(ast.Atom); ok {
